@@ -21,14 +21,14 @@ def known_ids():
 #  count monitors: C01 C02 C04 C05 C06 C07 C08 C09 C18(record part)
 # ----------------------------------------------------------------------------------------
 MIX = {
-    'C01': [('random', 4), ('tie', 1), ('quota', 1), ('coalition', 1), ('chain', 1), ('bullet', 2), ('exact', 1), ('sparse', 2), ('bigm', 1), ('unanimous', 1), ('thirds', 1)],
+    'C01': [('random', 4), ('tie', 1), ('quota', 1), ('coalition', 1), ('chain', 1), ('bullet', 2), ('exact', 1), ('sparse', 2), ('bigm', 1), ('unanimous', 1), ('thirds', 1), ('writein', 2)],
     'C02': [('random', 3), ('chain', 3), ('quota', 1), ('bigm', 2), ('sparse', 1), ('neartie', 1), ('unanimous', 1)],
     'C04': [('quota', 3), ('exact', 3), ('random', 2), ('tie', 1), ('sparse', 1), ('bigm', 1), ('thirds', 2)],
     'C05': [('coalition', 4), ('random', 2), ('unanimous', 1), ('sparse', 1), ('hiddenpartner', 2)],
     'C06': [('chain', 3), ('random', 3), ('quota', 1), ('bigm', 1), ('sparse', 1), ('surplustie', 1), ('neartie', 2), ('thirds', 2)],
     'C07': [('tie', 3), ('prior', 2), ('reversal', 1), ('surplustie', 2), ('writein', 2), ('random', 2), ('quota', 1), ('bullet', 1), ('coalition', 1), ('sparse', 1), ('neartie', 1)],
     'C08': [('random', 4), ('tie', 1), ('quota', 1), ('unanimous', 1)],
-    'C09': [('random', 4), ('tie', 1), ('coalition', 1), ('bullet', 2), ('exact', 1), ('sparse', 2), ('thirds', 1), ('hiddenpartner', 1)],
+    'C09': [('random', 4), ('tie', 1), ('coalition', 1), ('bullet', 2), ('exact', 1), ('sparse', 2), ('thirds', 1), ('hiddenpartner', 1), ('writein', 2)],
     'C18': [('random', 4), ('tie', 1), ('quota', 1), ('sparse', 1), ('writein', 1)],
 }
 RULESET = {
@@ -58,7 +58,7 @@ def make_profile(rng, shape, prop, rule_hint=None):
         return gen.exactprofile(rng, p=2)
     if shape == 'random':
         return gen.randprofile(rng, wd=True, und=(prop not in ('C05',)), full=(prop == 'C05' and rng.random() < 0.6),
-                               maxc=6 if prop == 'C05' else 7)
+                               maxc=6 if prop == 'C05' else 7, wdmin=rng.choice([0, 0, 2, 3]))
     return gen.SHAPES[shape](rng)
 
 
@@ -469,7 +469,7 @@ def check_counts(prop, tier):
             for opts, lp in configs_for(rule, rng, shape, all_=(tier == 'thorough' and i % 5 == 0)):
                 budget = 10
                 T = drive.run_count(blt, opts, lowprec=lp, iters=(prop == 'C08'), budget=budget,
-                                    want_ballots=(prop in ('C02', 'C06', 'C01')))
+                                    want_ballots=(prop in ('C02', 'C06', 'C01')), denote=pr)
                 R.cov['evaluations'] += 1
                 if T['outcome'] == 'reject':
                     skipped['rejected:' + T['exc'][:40]] += 1
